@@ -29,11 +29,19 @@ const (
 	mTimeLater      // header field: later block time (still a valid block — another block)
 	mDifficulty     // header field: other difficulty (still a valid block under solo — another block)
 	mDupTail        // last transaction repeated, tx root AND state root those the body (duplicate executed) really gives
+	mStateEmpty     // header field: StateHash EMPTY (zero length)
+	mTxHashEmpty    // header field: TxHash EMPTY
+	mBothEmpty      // header fields: TxHash and StateHash both EMPTY
+	mStateShort     // header field: StateHash one byte short
+	mTxHashLong     // header field: TxHash one byte long
+	mStateZero      // header field: StateHash 32 zero bytes
+	mTxHashZero     // header field: TxHash 32 zero bytes
 	nMut
 )
 
 var mutName = []string{"reorder", "alter", "altersig", "resign", "duplicate", "blocksig", "drop", "add",
-	"txhash", "statehash", "height", "parent", "time", "timelater", "difficulty", "duptail"}
+	"txhash", "statehash", "height", "parent", "time", "timelater", "difficulty", "duptail",
+	"stateempty", "txhashempty", "bothempty", "stateshort", "txhashlong", "statezero", "txhashzero"}
 
 // mutate declares the mutant of kind k of block x (a new-header block with body txs on parent p).
 // sameHdr tells whether the mutant has x's hash.
@@ -101,6 +109,25 @@ func (b *builder) mutate(r *gen.Rand, k int, x int, tag *int) (wid int, sameHdr 
 		return b.blk(g.parent, txs, o), false
 	case mDupTail:
 		return b.blk(g.parent, append(txs, txs[len(txs)-1]), base()), false
+	case mStateEmpty, mTxHashEmpty, mBothEmpty, mStateShort, mTxHashLong, mStateZero, mTxHashZero:
+		o := base()
+		switch k {
+		case mStateEmpty:
+			o.stateF = 'e'
+		case mTxHashEmpty:
+			o.rootF = 'e'
+		case mBothEmpty:
+			o.stateF, o.rootF = 'e', 'e'
+		case mStateShort:
+			o.stateF = 's'
+		case mTxHashLong:
+			o.rootF = 'l'
+		case mStateZero:
+			o.stateF = 'z'
+		default:
+			o.rootF = 'z'
+		}
+		return b.blk(g.parent, txs, o), false
 	case mTimeLater:
 		o := base()
 		o.time = g.time + 5 + r.Intn(5)
@@ -375,7 +402,7 @@ func GenC27(seed uint64) []Case {
 	// receiving node's mempool (and with some of them, for the kinds that touch the body)
 	for k := 0; k < nMut; k++ {
 		for _, mode := range []int{poolNone, poolAll, poolSome} {
-			if mode == poolSome && !(k <= mAdd || k == mDupTail) {
+			if mode == poolSome && !(k <= mAdd || k == mDupTail || k == mStateEmpty || k == mBothEmpty) {
 				continue
 			}
 			cs = append(cs, scTip(r, "tip-"+mutName[k]+modeName[mode], []int{k}, mode, false))
@@ -404,7 +431,8 @@ func GenC27(seed uint64) []Case {
 	for _, k := range []int{mReorder, mAlterSig, mBlockSig} {
 		cs = append(cs, scDownloadStale(r, "dlstale-"+mutName[k], k))
 	}
-	for i, k := range []int{mStateHash, mTxHash, mReorder, mAlterSig, mDrop, mTime, mDupTail, mDuplicate} {
+	for i, k := range []int{mStateHash, mTxHash, mReorder, mAlterSig, mDrop, mTime, mDupTail, mDuplicate,
+		mStateEmpty, mTxHashEmpty, mBothEmpty, mStateShort, mTxHashLong, mStateZero, mTxHashZero} {
 		cs = append(cs, scLastInvalid(r, "lastinvalid-"+mutName[k]+modeName[i%3], k, i%3))
 	}
 	// several mutants in a row
